@@ -847,7 +847,7 @@ func (sd *SpecAnalyser) schemaFromRef(ref spec.Ref, defns *spec.Definitions) (ac
 }
 
 func schemaLocationKey(location DifferenceLocation) string {
-	k := location.Method + location.URL + location.Node.Field + location.Node.TypeName
+	k := location.Method + location.URL + fmt.Sprint(location.Response) + location.Node.Field + location.Node.TypeName
 	if location.Node.ChildNode != nil && location.Node.ChildNode.IsArray {
 		k += location.Node.ChildNode.Field + location.Node.ChildNode.TypeName
 	}
